@@ -534,7 +534,15 @@ struct Runner {
             switch (o.b) {
             case 0: x.setMagnitude(A, std::fabs(arg(o, 0))); break;
             case 1: x.setDownDirection(A, argUnit(o, 0)); break;
-            case 2: x.setGravityVector(A, arg3(o, 0)); break;
+            case 2: {   // full vector; partially unchanged values are where "nothing changed" shortcuts live
+                Vec3 v = arg3(o, 0);
+                if (o.c % 3 == 1) {          // exactly the same magnitude, other direction: flip signs of components
+                    v = x.getGravityVector(A); int m = 1 + (o.c / 3) % 7;
+                    for (int i = 0; i < 3; ++i) if (m & (1 << i)) v[i] = -v[i];
+                } else if (o.c % 3 == 2) {   // same direction, other magnitude
+                    v = x.getGravityVector(A) * (0.25 + std::fabs(arg(o, 0)));
+                }
+                x.setGravityVector(A, v); break; }
             case 3: x.setZeroHeight(A, arg(o, 0)); break;
             case 4: x.setBodyIsExcluded(A, MobilizedBodyIndex(1 + o.c % (S.nb - 1)), arg(o, 0) > 0); break;
             case 5: { Vec3 v = arg3(o, 0); if (!(v.norm() > 1e-6)) v = Vec3(1, 0, 0); x.setDownDirection(A, v); break; }
